@@ -103,7 +103,7 @@ func init() {
 			if tier == "thorough" {
 				return len(c18Cells)
 			}
-			return 330
+			return 1100
 		},
 		Run:          runC18,
 		Required:     []string{"dials", "connect_requests_checked", "tls_sessions_checked", "hook_logs_checked", "bad_certificates_refused"},
@@ -122,7 +122,10 @@ type hookCall struct{ Name, Network, Addr string }
 func runC18(ctx *core.Ctx, out *core.Out) {
 	idx := ctx.Idx
 	if !ctx.Thorough() {
-		stride := len(c18Cells) / 330
+		stride := len(c18Cells) / 1100
+		if stride < 1 {
+			stride = 1
+		}
 		idx = (ctx.Idx*stride + int(ctx.Seed)%stride) % len(c18Cells)
 	}
 	cell := c18Cells[idx]
